@@ -3,4 +3,4 @@ Require Import ExtrOcamlBasic.
 From Coq Require Import ZArith NArith.
 From VB Require Import Conc.ValidatorDefs Conc.CacheDefs Conc.RingDefs.
 Extraction "Conc_model.ml" Nat.pred N.succ Z.succ step run run_count init seq_verdict holders holds_token quiescent_main
-  lfru_get_or_default evict_index lru_insert lru_try_get blk_step sys_step sys_init ring_step ring_init fifo_step.
+  lfru_get_or_default evict_index lru_insert lru_try_get blk_step sys_step sys_init ring_step ring_init fifo_step mk_tasks.
